@@ -100,51 +100,69 @@ theorem ppExGCDV_greatest (a b c : Nat) (ha : a ≠ 0) (hb : b ≠ 0)
     clmul_comm (ppExGCDV a b).2.1 c, clmul_comm (ppExGCDV a b).2.2 c, ← clmul_assoc, ← clmul_assoc,
     ← h1, ← h2]
 
-/-
-FULL STATEMENT (not proved: needs the termination measure of the do-while loop —
-deg(odd part of u) + deg(odd part of v) decreases in every iteration — and the invariant
-"the common divisors of (u, v) are those of (aa, bb)"):
-  theorem_ppExGCDV_spec (a b) (ha : a ≠ 0) (hb : b ≠ 0) :
-      (ppExGCDV a b).1 = Spec.pgcd a b ∧ clmul a da ^^^ clmul b db = d
-  theorem_ppGCDV_spec (a b) (ha : a ≠ 0) (hb : b ≠ 0) : ppGCDV a b = Spec.pgcd a b
-Proved part: the Bezout identity and "greatest" above; `d ∣ a`, `d ∣ b` are missing.
-(Model-level evidence: 1820 pairs incl. all 1..39 × 1..39 agree with a Python reference.)
--/
+/-- ppGCD computes the gcd of the specification (the do-while loop terminates within the model's
+    fuel: deg(odd part of u) + deg(odd part of v) drops in every iteration). -/
+theorem ppGCDV_spec (a b : Nat) (ha : a ≠ 0) (hb : b ≠ 0) : ppGCDV a b = pgcd a b :=
+  gcdV_eq_pgcd ha hb
+
+example : ppGCDV (clmul 0b1110 0b1011) (clmul 0b1110 0b1101) = 0b1110 := by decide
+
+/-- ppExGCD: d is the gcd and `a·da + b·db = d`. -/
+theorem ppExGCDV_spec (a b : Nat) (ha : a ≠ 0) (hb : b ≠ 0) :
+    (ppExGCDV a b).1 = pgcd a b
+    ∧ clmul a (ppExGCDV a b).2.1 ^^^ clmul b (ppExGCDV a b).2.2 = (ppExGCDV a b).1 :=
+  ⟨by rw [exGCDV_fst, gcdV_eq_pgcd ha hb], exGCDV_bezout ha hb⟩
 
 /-! ## ppDivMod / ppInvMod (pp_mod.c), value-level model `ppDivModV` -/
 
-/-- ppDivMod(b, divident, a, mod) for mod with constant term 1 and deg divident < deg mod:
-    the result is 0 or satisfies `b·a ≡ divident (mod mod)` exactly (`pmod (b a) mod = divident`),
-    and deg b < deg mod (`b < 2^deg mod`).  No assumption on a. -/
-theorem ppDivModV_partial (dv a md : Nat) (hmd : md % 2 = 1) (hdv : dv < 2 ^ md.log2) :
-    (ppDivModV dv a md = 0 ∨ pmod (clmul (ppDivModV dv a md) a) md = dv)
-    ∧ ppDivModV dv a md < 2 ^ md.log2 :=
-  divModV_partial dv a md hmd hdv
+/-- ppDivMod(b, divident, a, mod) at full strength, for mod with constant term 1, ANY a, and
+    divident of degree ≤ deg mod (`divident < 2^(deg mod + 1)`; this contains the header's
+    `divident < mod` as integers, where deg divident = deg mod is possible):
+    gcd(a, mod) = 1 → `b·a ≡ divident (mod mod)` and b is reduced (deg b < deg mod);
+    gcd(a, mod) ≠ 1 → b = 0.
+    (b is reduced even for deg divident = deg mod because a non-reduced `da` only arises from
+    `da += da0` in an iteration that leaves v even, and the next iteration halves it.) -/
+theorem ppDivModV_spec (dv a md : Nat) (hmd : md % 2 = 1) (hdv : dv < 2 ^ (md.log2 + 1)) :
+    (pgcd a md = 1 → pmod (clmul (ppDivModV dv a md) a) md = pmod dv md
+        ∧ ppDivModV dv a md < 2 ^ md.log2)
+    ∧ (pgcd a md ≠ 1 → ppDivModV dv a md = 0) :=
+  divModV_spec dv a md hmd hdv
 
-example : ppDivModV 0b101 0b110 0b10011 = 0b1000 ∧ pmod (clmul 0b1000 0b110) 0b10011 = 0b101 := by
-  decide
-example : ppDivModV 1 0b11 0b101 = 0 := by decide   -- gcd(x + 1, x^2 + 1) = x + 1 ≠ 1
+/-- the same under the header's preconditions literally (`a, divident < mod` as integers) -/
+theorem ppDivModV_spec_header (dv a md : Nat) (hmd : md % 2 = 1) (_ha : a < md) (hdv : dv < md) :
+    (pgcd a md = 1 → pmod (clmul (ppDivModV dv a md) a) md = pmod dv md
+        ∧ ppDivModV dv a md < 2 ^ md.log2)
+    ∧ (pgcd a md ≠ 1 → ppDivModV dv a md = 0) :=
+  divModV_spec dv a md hmd (Nat.lt_trans hdv Nat.lt_log2_self)
 
-/-- ppInvMod(b, a, mod): the result is 0 or the inverse of a modulo mod, of degree < deg mod
-    (mod ≠ 1 so that deg 1 < deg mod). -/
-theorem ppInvModV_partial (a md : Nat) (hmd : md % 2 = 1) (h1 : md ≠ 1) :
-    (ppInvModV a md = 0 ∨ pmod (clmul (ppInvModV a md) a) md = 1)
-    ∧ ppInvModV a md < 2 ^ md.log2 := by
+/-- for deg divident < deg mod the congruence reads `pmod (b·a) mod = divident` -/
+theorem ppDivModV_spec_reduced (dv a md : Nat) (hmd : md % 2 = 1) (hdv : dv < 2 ^ md.log2)
+    (hg : pgcd a md = 1) :
+    pmod (clmul (ppDivModV dv a md) a) md = dv ∧ ppDivModV dv a md < 2 ^ md.log2 := by
+  have h := (divModV_spec dv a md hmd
+    (Nat.lt_of_lt_of_le hdv (Nat.pow_le_pow_right (by omega) (by omega)))).1 hg
+  rw [pmod_of_lt (by omega) hdv] at h
+  exact h
+
+example : pgcd 0b110 0b10011 = 1 ∧ ppDivModV 0b101 0b110 0b10011 = 0b1000
+    ∧ pmod (clmul 0b1000 0b110) 0b10011 = 0b101 := by decide
+example : pgcd 0b11 0b101 ≠ 1 ∧ ppDivModV 1 0b11 0b101 = 0 := by decide
+-- deg divident = deg mod (divident = x^4 + x < mod = x^4 + x + 1 as integers):
+example : ppDivModV 0b10010 0b110 0b10011 < 2 ^ 4
+    ∧ pmod (clmul (ppDivModV 0b10010 0b110 0b10011) 0b110) 0b10011 = pmod 0b10010 0b10011 := by decide
+
+/-- ppInvMod(b, a, mod) (mod odd, mod ≠ 1): the inverse of a, reduced, if gcd(a, mod) = 1; else 0. -/
+theorem ppInvModV_spec (a md : Nat) (hmd : md % 2 = 1) (h1 : md ≠ 1) :
+    (pgcd a md = 1 → pmod (clmul (ppInvModV a md) a) md = 1 ∧ ppInvModV a md < 2 ^ md.log2)
+    ∧ (pgcd a md ≠ 1 → ppInvModV a md = 0) := by
   have hlog : 1 < 2 ^ md.log2 := by
     have : 2 ^ 1 ≤ md := by omega
     have := (Nat.le_log2 (by omega : md ≠ 0)).2 this
     exact Nat.lt_of_lt_of_le (by decide : 1 < 2 ^ 1) (Nat.pow_le_pow_right (by omega) this)
-  exact divModV_partial 1 a md hmd hlog
+  refine ⟨fun hg => ppDivModV_spec_reduced 1 a md hmd hlog hg, ?_⟩
+  exact (divModV_spec 1 a md hmd
+    (Nat.lt_of_lt_of_le hlog (Nat.pow_le_pow_right (by omega) (by omega)))).2
 
 example : ppInvModV 0b110 0b10011 = 0b111 ∧ pmod (clmul 0b111 0b110) 0b10011 = 1 := by decide
-
-/-
-FULL STATEMENT (not proved; the missing part is the same termination + gcd invariant as for ppGCD):
-  theorem_ppDivModV_spec (dv a md) (hmd : md % 2 = 1) (ha : a < 2^md.log2) (hdv : dv < 2^md.log2) :
-      (pgcd a md = 1 → pmod (clmul b a) md = dv ∧ b < 2^md.log2) ∧ (pgcd a md ≠ 1 → b = 0)
-Proved (`ppDivModV_partial`): whenever the result is non-zero it IS the quotient, and it is reduced.
-Missing: gcd(a, mod) = 1 → the loop ends with v = 1 (so the result is not the fallback 0), and
-gcd ≠ 1 → v ≠ 1.
--/
 
 end Bee2V.C05
